@@ -4,6 +4,8 @@
    exponentiates to it).  Trajectory half: a noise-free run executes one trajectory whatever was requested. *)
 From Coq Require Import List Arith Permutation.
 Import ListNotations.
+From Coq Require Import Ring.
+From Yaqs Require Import LinAlg.TT.
 From Yaqs Require Import Model.DigitalLoop Proofs.DigitalLoopP Model.Params Proofs.ParamsP.
 
 Theorem C02_schedule_is_permutation : forall sampling fuel c ex ev, NoDup (map id c) ->
@@ -41,3 +43,13 @@ Print Assumptions C02_one_trajectory.
 Theorem C02_gauge_discipline : forall ex, forallb (fun b => b) (gauge_run true (gauge_word ex)) = true.
 Proof. exact gauge_discipline. Qed.
 Print Assumptions C02_gauge_discipline.
+
+(* one-qubit gates (apply_single_qubit_gate contracts the gate matrix with the site tensor): over any commutative ring, for any chain, contracting a local operator u with the tensor of one
+   site changes the represented vector exactly as u acts on that tensor factor — every amplitude, any length and bond dimensions *)
+Theorem C02_local_operator_acts_exactly : forall (K : Type) (k0 k1 : K) (kadd kmul ksub : K -> K -> K) (kopp : K -> K),
+  ring_theory k0 k1 kadd kmul ksub kopp (@eq K) ->
+  forall pre s post u spre p spost, length spre = length pre ->
+  amp K k0 k1 kadd kmul (pre ++ rotate K k0 kadd kmul u s :: post) (spre ++ p :: spost) =
+  bsum K k0 kadd (d K s) (fun q => kmul (u p q) (amp K k0 k1 kadd kmul (pre ++ s :: post) (spre ++ q :: spost))).
+Proof. exact local_operator_acts_on_amplitudes. Qed.
+Print Assumptions C02_local_operator_acts_exactly.
